@@ -6,6 +6,7 @@ import PqModel.MergeZero
 import PqModel.MergeRetry
 import PqModel.MergeNested
 import PqModel.MergeRefineOrder
+import PqModel.MergeShape
 
 /-! # C09 — Merging sorted row groups yields a sorted, complete, per-input-stable sequence
 
@@ -540,6 +541,100 @@ theorem nested_merge_range_misses_rows_before_fix :
     colRange { desc := false, nullsFirst := false } nestedWitnessPages false = some (some 0, some 60) ∧
     colRange { desc := false, nullsFirst := false } nestedWitnessPages true = some (some 0, some 100) :=
   firstLast_misses_row
+
+end
+
+/-! ## which row groups the planner may read by their chunks (MergeShape.lean, round 4)
+
+`Shape` is the tree of row-group views (`leaf` = file / buffer, `merged`, `segments`, `multi`, `dedup`,
+`range`, `converted`); `interleaves`, `dropsRows`, `readsChunksInOrder` mirror
+`rowGroupInterleavesChunks`, `rowGroupDropsRows`, `rowGroupReadsChunksInOrder`; `chunks s` is what the
+column chunks (hence page and offset indexes and row-range views) hold, `rows fixed m d s` what
+`Rows()` delivers for an arbitrary merge function `m` and deduplication `d`. -/
+section
+open PqModel.Shape PqModel.Refine
+
+/-- **a row group for which both `rowGroupInterleavesChunks` and `rowGroupDropsRows` answer false
+    delivers exactly the rows of its column chunks, in their order**, for every nesting of views and
+    whatever the merge and the deduplication compute. This is the fact behind `PagesOk` (first / last
+    page bound the first / last row) and behind the row positions of the cut lookups. -/
+theorem rows_are_the_chunks_unless_interleaved_or_deduplicating {α : Type}
+    (m : List (List α) → List α) (d : List α → List α) (s : Shape α)
+    (hi : interleaves s = false) (hd : dropsRows s = false) : rows true m d s = chunks s :=
+  rows_eq_chunks m d s hi hd
+
+/-- such a row group may be sliced by row positions: the row-range view is the slice of its rows -/
+theorem sliced_row_group_is_the_slice_of_its_rows {α : Type}
+    (m : List (List α) → List α) (d : List α → List α) (s : Shape α) (off len : Nat)
+    (hi : interleaves s = false) (hd : dropsRows s = false) :
+    rows true m d (.range s off len) = ((rows true m d s).drop off).take len :=
+  range_is_slice_of_rows m d s off len hi hd
+
+/-- `rowGroupReadsChunksInOrder` (the sources `ConvertRowGroup` masks, the members whose concatenated
+    chunks `multiRowGroup.Rows()` reads) is sound, before and after the fix of `ConvertRowGroup` -/
+theorem reads_chunks_in_order_is_sound {α : Type} (fixed : Bool)
+    (m : List (List α) → List α) (d : List α → List α) (s : Shape α)
+    (h : readsChunksInOrder s = true) : rows fixed m d s = chunks s :=
+  readsChunksInOrder_sound fixed m d s h
+
+/-- a converted view delivers the rows of its source (library fix 6a492b8), so the conversion of a
+    merge is the merge; before the fix it delivered the chunks of the source -/
+theorem conversion_keeps_the_rows {α : Type} (m : List (List α) → List α) (d : List α → List α) (s : Shape α) :
+    rows true m d (.converted s) = rows true m d s ∧ rows false m d (.converted s) = chunks s :=
+  converted_rows m d s
+
+/-- planner mirror: a deduplicating view gets no cut lookups, like an interleaved row group -/
+theorem deduplicating_view_is_never_sliced (strict : Bool) (t : Target) (h : t.dropsRows = true) :
+    hasCuts strict t = false := by
+  unfold hasCuts
+  split
+  · rfl
+  · simp [h]
+
+example : interleaves (.converted (.segments false [.leaf [1, 2], .range (.leaf [3, 4, 5, 6]) 1 2]) : Shape Nat) = false ∧
+    dropsRows (.converted (.segments false [.leaf [1, 2], .range (.leaf [3, 4, 5, 6]) 1 2]) : Shape Nat) = false := by decide
+
+/-- seed C09-4b: segments one of which is a loser-tree merge do interleave their chunks (the seeded
+    variant answered false for every `sortedSegmentRowGroup`) -/
+theorem segments_holding_a_merge_interleave :
+    let s : Shape Nat := .segments false [.leaf [1, 2], .merged false [.leaf [10, 20], .leaf [15, 16]]]
+    interleaves s = true ∧ dropsRows s = false ∧
+    rows true mergeNat dedupNat s = [1, 2, 10, 15, 16, 20] ∧ chunks s = [1, 2, 10, 20, 15, 16] :=
+  segments_with_a_merged_segment_interleave
+
+/-- FINDING (round 4, fixed in the library clone, 6a492b8): `Merge(evens, odds)` converted to another
+    schema by an enclosing merge came out as the evens followed by the odds, and the planner took the
+    converted view for a row group with its pages in row order. Harness keys `unsorted nested converted …`. -/
+theorem converted_merge_was_not_the_merge_before_fix :
+    let s : Shape Nat := .converted (.merged false [.leaf [0, 2, 4], .leaf [1, 3, 5]])
+    rows false mergeNat dedupNat s = [0, 2, 4, 1, 3, 5] ∧ rows true mergeNat dedupNat s = [0, 1, 2, 3, 4, 5] ∧
+    interleaves (.converted (.leaf (chunks s)) : Shape Nat) = false ∧ interleaves s = true :=
+  converted_merge_before_fix_is_not_the_merge
+
+/-- FINDING (round 4, fixed in the library clone): a row-range view reads the chunks of its base, so
+    slicing a deduplicating view brings back the rows it dropped. Harness key
+    `deduplicated-rows-reappear …`. -/
+theorem slicing_a_deduplicating_view_brings_rows_back :
+    let s : Shape Nat := .dedup (.leaf [1, 1, 2, 2, 3, 3])
+    rows true mergeNat dedupNat s = [1, 2, 3] ∧
+    rows true mergeNat dedupNat (.range s 0 2) = [1, 1] ∧
+    ((rows true mergeNat dedupNat s).drop 0).take 2 = [1, 2] ∧
+    dropsRows s = true ∧ interleaves s = false :=
+  range_of_dedup_view_brings_rows_back
+
+/-- the null count of an in-memory column index (`hasNulls` of the planner's page statistics): positive
+    exactly when some definition level is below the maximum, for any maximum level -/
+theorem buffer_null_count_sees_every_null (maxDef : Nat) (defs : List Nat) :
+    0 < nullCount maxDef defs ↔ ∃ d ∈ defs, d ≠ maxDef := nullCount_pos_iff maxDef defs
+
+example : 0 < nullCount 2 [2, 1, 2] := by decide
+
+/-- seed C09-4a (`countLevelsEqual(levels, 0)`): equal on flat optional columns, blind to the null
+    leaf of a present group (level 1 of 2) -/
+theorem seeded_null_count_misses_nested_null :
+    (∀ defs : List Nat, (∀ d ∈ defs, d ≤ 1) → nullCountSeeded defs = nullCount 1 defs) ∧
+    nullCount 2 [2, 1, 2] = 1 ∧ nullCountSeeded [2, 1, 2] = 0 :=
+  ⟨nullCountSeeded_eq_flat, nullCountSeeded_misses_null_leaf⟩
 
 end
 
